@@ -61,7 +61,7 @@ ListRoundTrip(cs) == [i \in 1..Len(cs) |-> Decode(Wire(cs[i]))] = cs
 
 --------------------------------------------------------------------------
 (* NewControlBeheraPasswordPolicy(WithGraceAuthNsRemaining, WithSecondsBeforeExpiration, WithErrorCode) *)
-BeheraArgs == [g : {Unset, 0, 2}, e : {Unset, 0, 2}, c : {Unset, 0, 8, 9, 255, 256, 264, 65539, 1000000}]   \* c = 1000000 stands for 2^31-1
+BeheraArgs == [g : {Unset, 0, 2}, e : {Unset, 0, 2}, c : {Unset, 0, 8, 9, 255, 256, 264, 65539, 1000000, 2000000, 3000000}]   \* 1000000 stands for 2^31-1, 2000000 for 2^64-2, 3000000 for 2^64-1 (WithErrorCode takes a uint)
 BeheraOK(a) == Cardinality({f \in {"g", "e", "c"} : a[f] # Unset}) <= 1 /\ (a.c = Unset \/ a.c \in 0..8)
 BeheraResult(a) == IF BeheraOK(a) THEN [ok |-> TRUE, grace |-> a.g, expire |-> a.e, error |-> a.c]
                    ELSE [ok |-> FALSE, grace |-> Unset, expire |-> Unset, error |-> Unset]
